@@ -22,10 +22,11 @@ type Faults struct {
 	hotNode        int
 	blipUntil      time.Time // a short cut-off of one server that ends by itself
 	blipNode       int
+	rotX, rotY     int // rotate_minority: the server kept in a minority of two, and its current companion
 }
 
 func newFaults(w *World, n int) *Faults {
-	f := &Faults{w: w, diskFaultsEver: make([]bool, n), stalledUntil: make([]time.Time, n), fullUntil: make([]time.Time, n)}
+	f := &Faults{w: w, rotX: -1, rotY: -1, diskFaultsEver: make([]bool, n), stalledUntil: make([]time.Time, n), fullUntil: make([]time.Time, n)}
 	ks := make([]string, 0, len(w.cfg.Faults))
 	for k := range w.cfg.Faults {
 		ks = append(ks, k)
@@ -200,6 +201,40 @@ func (f *Faults) inject(kind string) {
 		}
 		w.stats.fault("leader_cut_from_voters")
 		w.event("fault cut leader s%d from its %d voters", l.idx, k)
+	case "rotate_minority":
+		// one server stays cut off from the majority all the time but its single companion changes: first it
+		// can only talk to Y, then only to Z, ... It never reaches a quorum at any moment (with five or more
+		// voters), so with pre-vote it must never raise its term, however the grants of successive companions add up
+		if nn < 5 {
+			return
+		}
+		l := f.leader()
+		if f.rotX < 0 || w.nodes[f.rotX].inc == nil || !w.nodes[f.rotX].inc.alive {
+			f.rotX = w.ch.Choose(simrt.SFault, nn)
+			if l != nil && l.idx == f.rotX {
+				f.rotX = (f.rotX + 1) % nn
+			}
+			f.rotY = -1
+		}
+		y := w.ch.Choose(simrt.SFault, nn)
+		for k := 0; k < nn && (y == f.rotX || y == f.rotY || (l != nil && y == l.idx)); k++ {
+			y = (y + 1) % nn
+		}
+		if y == f.rotX {
+			return
+		}
+		f.rotY = y
+		w.net.heal()
+		for j := 0; j < nn; j++ {
+			if j != f.rotX && j != y {
+				for _, i := range []int{f.rotX, y} {
+					w.net.blocked[i][j] = true
+					w.net.blocked[j][i] = true
+				}
+			}
+		}
+		w.stats.fault("minority_rotated")
+		w.event("fault rotate minority: s%d now only reaches s%d", f.rotX, y)
 	case "cut_leader_keep_one":
 		// the leader keeps exactly one of its voters (and whatever else it talks to) and loses the others; the
 		// next call to the voter it keeps fails in the transport and the ones after it work: a request that
